@@ -2,4 +2,4 @@
 # usage: ingest9.sh C03 C04 ...   confirm round-9 seeds (K, L) from /tmp/seed9-<prop> and run all checks against them
 for s in "$@"; do for x in K L; do [ -f /tmp/seed9-$s/$x/patch.diff ] && /verif/bin/confirm_seed.sh /tmp/seed9-$s/$x $s-$x 2>&1 | tail -1; done; done
 ids=""; for s in "$@"; do for x in K L; do [ -d /verif/seeded/$s-$x ] && ids="$ids $s-$x"; done; done
-VERIFCHK_BIN=/tmp/verifchk-round9-frozen /verif/bin/seedrun.sh $ids
+[ -n "$ids" ] && VERIFCHK_BIN=${FROZEN:-/tmp/verifchk-round9-frozen} /verif/bin/seedrun.sh $ids
